@@ -49,56 +49,79 @@ class _Stress:
             self.tags.add("empty_literal")
         return lit
 
-    def atom(self, depth: int) -> str:
+    # every generator returns (source, nullable?) — `nullable` is a syntactic estimate (nonterminals count as
+    # not nullable) used to keep the share of grammars with a nullable body under `*` / `+` moderate
+    def atom(self, depth: int) -> tuple[str, bool]:
         rng = self.rng
         r = rng.random()
-        if depth > 0 and r < 0.35:
-            return "(" + self.expr(depth - 1) + ")"
+        if depth > 0 and r < 0.3:
+            src, nl = self.expr(depth - 1)
+            return "(" + src + ")", nl
         if r < 0.6 and len(self.names) > 0:
             self.tags.add("nonterminal")
-            return rng.choice(self.names)
+            return rng.choice(self.names), False
         t = self.terminal()
-        return "(" + t + ")" if " " in t else t
+        return ("(" + t + ")" if " " in t else t), t in ('""', 'b""')
 
-    def item(self, depth: int) -> str:
+    def item(self, depth: int) -> tuple[str, bool]:
         rng = self.rng
-        a = self.atom(depth)
+        a, nl = self.atom(depth)
         r = rng.random()
-        if r < 0.22:
+        if r < 0.20:
             op = "?"
-        elif r < 0.36:
+        elif r < 0.32:
             op = "*"
-        elif r < 0.46:
+        elif r < 0.42:
             op = "+"
-        elif r < 0.52:
+        elif r < 0.48:
             lo = rng.randint(0, 2)
             op = "{%d,%d}" % (lo, rng.randint(max(lo, 1), 3))
-        elif r < 0.57:
+        elif r < 0.53:
             op = "{%d,}" % rng.randint(0, 2)
-        elif r < 0.60:
+        elif r < 0.56:
             op = "{%d}" % rng.randint(1, 3)
         else:
-            return a
+            return a, nl
+        if nl and op in ("*", "+") and rng.random() < 0.75:
+            op = rng.choice(["?", "{0,2}", "{1,2}"])          # keep most nullable bodies out of `*` / `+`
         self.tags.add("rep" + op[0])
         out = a + op
-        if rng.random() < 0.35:                       # repetition of a repetition
+        out_nl = nl or op in ("?", "*") or op.startswith("{0")
+        if rng.random() < 0.3:                       # repetition of a repetition
             self.tags.add("nested_repetition")
-            out = "(" + out + ")" + rng.choice(["*", "+", "?", "{0,2}", "{1,}"])
-        return out
+            op2 = rng.choice(["*", "+", "?", "{0,2}", "{1,}"])
+            if out_nl and op2 in ("*", "+") and rng.random() < 0.75:
+                op2 = rng.choice(["?", "{0,2}"])
+            out = "(" + out + ")" + op2
+            out_nl = out_nl or op2 in ("?", "*", "{0,2}")
+        return out, out_nl
 
-    def concat(self, depth: int) -> str:
-        return " ".join(self.item(depth) for _ in range(self.rng.choice([1, 1, 2, 2, 3])))
+    def concat(self, depth: int) -> tuple[str, bool]:
+        parts = [self.item(depth) for _ in range(self.rng.choice([1, 1, 2, 2, 3]))]
+        return " ".join(p for p, _ in parts), all(n for _, n in parts)
 
-    def expr(self, depth: int) -> str:
+    def expr(self, depth: int) -> tuple[str, bool]:
         n = self.rng.choice([1, 1, 2, 2, 3])
         if n > 1:
             self.tags.add("alternative")
-        return " | ".join(self.concat(depth) for _ in range(n))
+        alts = [self.concat(depth) for _ in range(n)]
+        return " | ".join(a for a, _ in alts), any(nl for _, nl in alts)
+
+    def base(self) -> str:
+        """an alternative without nonterminals: every rule has one, so every nonterminal is productive
+        (`Grammar.prime()` — run by the spec reader — does not return for an unproductive grammar)"""
+        ts = []
+        for _ in range(self.rng.choice([1, 1, 2])):
+            t = self.terminal()
+            ts.append("(" + t + ")" + self.rng.choice(["", "", "?", "*"]) if " " in t else t + self.rng.choice(["", "", "", "?", "*"]))
+        return " ".join(ts)
 
     def spec(self) -> str:
         lines = []
         for name in self.names:
-            lines.append(f"{name} ::= {self.expr(2)}")
+            alts = [self.expr(self.rng.choice([1, 1, 2]))[0], self.base()]
+            self.rng.shuffle(alts)
+            lines.append(f"{name} ::= {' | '.join(alts)}")
         return "\n".join(lines) + "\n"
 
 
@@ -133,13 +156,23 @@ HANDWRITTEN = [
 
 
 def preset_spec(rng) -> tuple[str, str, set[str]]:
-    presets = shared.feature_presets()
-    name = rng.choice(["tiny", "tiny", "repetitions", "recursive", "regex", "binary", "bits", "mixed", "default"])
-    f = shared.with_overrides(presets[name], generators=0.0, max_count=3)
-    if name not in ("tiny",):
-        f = shared.with_overrides(f, n_rules=(1, 3), max_concat=3)
-    info = shared.gen_spec_info(rng, f)
-    return info.text, info.mode, {"shared:" + name}
+    """a grammar from the shared generator `harness.gen.grammars` (owned by another builder: its API is used
+    defensively, any failure falls back to the stress generator)"""
+    try:
+        cls = rng.choice(["text", "regex", "bytes", "bits", "recursive"])
+        opts = {"nested_reps": rng.random() < 0.5, "empty_regex": rng.random() < 0.3}
+        d = shared.gen_spec(rng, cls, **opts)
+        mode = "text" if d["kind"] == "str" else ("bits" if cls == "bits" else "bytes")
+        return d["spec"], mode, {"shared:" + cls}
+    except Exception:  # noqa
+        return stress_spec(rng)
+
+
+def corner_specs() -> list[tuple[str, str]]:
+    try:
+        return [(s, "text" if k == "str" else "bytes") for s, k in shared.CORNER_SPECS]
+    except Exception:  # noqa
+        return []
 
 
 # ------------------------------------------------------------------------------------------------
